@@ -319,6 +319,13 @@ func (ex *Exec) limitOf(o *Obj) *Term {
 	return ex.c.Const(64, uint64(o.size))
 }
 
+func (ex *Exec) checkAccessP(p Ptr, size int64, write bool) {
+	if p.safe && p.dims != nil && ex.lockWatch == nil && p.obj.limit == nil {
+		return
+	}
+	ex.checkAccess(p.obj, p.off, size, write)
+}
+
 func (ex *Exec) checkAccess(o *Obj, off *Term, size int64, write bool) {
 	if ex.lockWatch != nil {
 		ex.checkWatch(o, off, size)
@@ -791,7 +798,7 @@ func (ex *Exec) load(p Ptr, t types.Type) Value {
 	if size == 0 {
 		return ex.zeroOf(t)
 	}
-	ex.checkAccess(o, p.off, size, false)
+	ex.checkAccessP(p, size, false)
 	if p.dims != nil {
 		var res Value
 		have := false
@@ -853,7 +860,7 @@ func (ex *Exec) store(p Ptr, t types.Type, v Value) {
 	if size == 0 {
 		return
 	}
-	ex.checkAccess(o, p.off, size, true)
+	ex.checkAccessP(p, size, true)
 	if ex.guard != nil {
 		old := ex.load(p, t)
 		m, ok := ex.mergeValue(ex.guard, v, old)
